@@ -7,6 +7,10 @@ var (
 	// ErrKeyOutOfOrder means keys to create Trie are not ascendingly ordered.
 	ErrKeyOutOfOrder = errors.New("keys not ascending sorted")
 
+	// ErrStepTooLong means a set of keys shares a run of bits that does not
+	// fit in the 16-bit step of an inner node that does not store its prefix.
+	ErrStepTooLong = errors.New("common run of keys is too long for a step")
+
 	// ErrIncompatible means it is trying to unmarshal data from an incompatible
 	// version.
 	ErrIncompatible = errors.New("incompatible with marshaled data")
